@@ -36,15 +36,48 @@ class Boom(Exception):
     pass
 
 
+FINALIZED = set()     # tags of values whose __del__ has run
+
+
 class Val:
+    """Registered value.  Equal by tag, so that the values of a cold replay (fresh objects)
+    compare equal to the real ones; records its own finalization."""
+
     def __init__(self, tag):
         self.tag = tag
 
     def __call__(self, *obs):
         return ('made', self.tag)
 
+    def __eq__(self, other):
+        return isinstance(other, Val) and other.tag == self.tag
+
+    def __ne__(self, other):
+        return not self.__eq__(other)
+
+    def __hash__(self):
+        return hash(self.tag)
+
+    def __del__(self):
+        FINALIZED.add(self.tag)
+
     def __repr__(self):
         return 'Val(%s)' % (self.tag,)
+
+
+class ColdVal(Val):
+    """Value of a cold replay: equal to the real one, but its death means nothing."""
+
+    def __del__(self):
+        pass
+
+
+class ValSpec:
+    """Placeholder for a value in the mutation log: the log must not own the real values
+    (a value whose only owners are the registry and a cache has to be able to die)."""
+
+    def __init__(self, tag):
+        self.tag = tag
 
 
 def flood():
@@ -89,8 +122,11 @@ def inner_dicts(roots):
 class Case:
     """One scripted case: a small world, one armed callback, one entry point."""
 
-    def __init__(self, ctx, flavour, point, action, entry, audit):
+    def __init__(self, ctx, flavour, point, action, entry, audit, warm='miss'):
         self.ctx, self.flavour, self.point, self.action, self.entry, self.audit = ctx, flavour, point, action, entry, audit
+        self.warm = warm
+        Case.count = getattr(Case, 'count', 0) + 1
+        self.uid = Case.count
         self.armed = False
         self.fired = 0
         self.log = []            # mutation log for the cold replay
@@ -249,26 +285,30 @@ class Case:
     # -- world -----------------------------------------------------------------
     def newval(self):
         self.serial += 1
+        return ValSpec('%d.%d' % (self.uid, self.serial))     # unique across the cases of a worker
+
+    def make(self, tag):
         case = self
         if self.point == 'factory':
             class FVal(Val):
                 def __call__(self_, *obs):
                     case.fire('factory')
                     return ('made', self_.tag)
-            return FVal(self.serial)
+            return FVal(tag)
         if self.point == 'value_del':
             class DVal(Val):
                 def __del__(self_):
+                    FINALIZED.add(self_.tag)
                     case.fire('value_del')
-            return DVal(self.serial)
-        return Val(self.serial)
+            return DVal(tag)
+        return Val(tag)
 
     def mutate(self, which, meth, *args):
         self.log.append((which, meth, args))
         if meth == 'bases':
             self.regs[which].__bases__ = tuple(self.regs[b] for b in args[0])
         else:
-            getattr(self.regs[which], meth)(*args)
+            getattr(self.regs[which], meth)(*[self.make(a.tag) if isinstance(a, ValSpec) else a for a in args])
 
     def cold(self):
         """Fresh plain registries with the same mutation history, no lookups."""
@@ -279,7 +319,7 @@ class Case:
             if meth == 'bases':
                 rs[which].__bases__ = tuple(rs[b] for b in args[0])
             else:
-                getattr(rs[which], meth)(*args)
+                getattr(rs[which], meth)(*[ColdVal(a.tag) if isinstance(a, ValSpec) else a for a in args])
         return rs['reg']
 
     def release_audit(self, mutation):
@@ -380,7 +420,7 @@ class Case:
 
     def run(self):
         ctx = self.ctx
-        where = {'flavour': self.flavour, 'point': self.point, 'action': self.action, 'entry': self.entry}
+        where = {'flavour': self.flavour, 'point': self.point, 'action': self.action, 'entry': self.entry, 'warm': self.warm}
         # warm an unrelated key so that the cache dictionaries exist and are populated
         self.reg.lookup([self.IR0], self.IP, 'n')
         self.reg.lookupAll([self.IR0], self.IP)
@@ -389,6 +429,9 @@ class Case:
             # the cached value must die inside the invalidation: cache it, then drop the registration
             self.call_entry(self.reg, 'lookup', hostile=False)
         before = self.observe(lambda: self.call_entry(self.cold(), self.entry, hostile=False))
+        if self.warm == 'hit':
+            # the key under attack is already cached: the callback now fires on the cache-hit path
+            self.observe(lambda: self.call_entry(self.reg, self.entry))
         self.armed = True
         if self.point == 'value_del':
             self.armed_del = True
@@ -406,6 +449,19 @@ class Case:
         ctx.count('reached[%s]' % self.point)
         ctx.count('action[%s]' % self.action)
         ctx.count('entry[%s]' % self.entry)
+        ctx.count('warm[%s]' % self.warm)
+        # a value handed back by the interrupted call must be alive (not an object whose last
+        # reference died while the lookup was still holding a borrowed pointer to it)
+        ctx.ev()
+        for v in (r1[1] if isinstance(r1[1], (list, tuple)) else [r1[1]]):
+            for x in (v if isinstance(v, tuple) else [v]):
+                try:
+                    dead = isinstance(x, Val) and x.tag in FINALIZED
+                except Exception:
+                    dead = True
+                if dead:
+                    ctx.violation('lookup-returned-a-finalized-object', dict(where, warm=self.warm, value=repr(x)),
+                                  mechanism='borrowed_cache_pointer', abort=False)
         r2 = self.observe(lambda: self.call_entry(self.reg, self.entry, hostile=False))
         after = self.observe(lambda: self.call_entry(self.cold(), self.entry, hostile=False))
         ctx.ev(3)
@@ -455,7 +511,8 @@ def script_product(tier):
         for p in POINTS:
             for a in ACTIONS:
                 for e in ENTRIES:
-                    out.append((f, p, a, e))
+                    for w in ('miss', 'hit'):
+                        out.append((f, p, a, e, w))
     return out
 
 
@@ -466,7 +523,7 @@ def run_script(ctx, rng, job):
     audit = job.get('audit', True)
     sel = job.get('only_points')
     for idx in range(me, len(prod), nchunks):
-        f, p, a, e = prod[idx]
+        f, p, a, e, w = prod[idx]
         if sel and p not in sel:
             continue
         if job.get('only_actions') and a not in job['only_actions']:
@@ -475,11 +532,13 @@ def run_script(ctx, rng, job):
             # fires in the provided-check of IP.__call__ (isOrExtends), before any registry
             # lookup is in progress: outside this property (the C/py difference there is C10's)
             continue
+        if p == 'value_del' and a == 'raise':
+            continue      # an exception raised by __del__ is discarded by the interpreter, it cannot propagate
         ctx.count('cells_tried')
-        case = Case(ctx, f, p, a, e, audit)
+        case = Case(ctx, f, p, a, e, audit, w)
         reached = case.run()
         if reached:
-            ctx.shape((f, p, a, e), nontrivial=True)
+            ctx.shape((f, p, a, e, w), nontrivial=True)
             if len(ctx.samples) < 2 and ctx.case == 0 and a == 'register' and p == 'uncached_exit':
                 ctx.sample({'flavour': f, 'point': p, 'action': a, 'entry': e, 'audited_dicts': case.audited,
                             'orphans_at_release': len(case.orphans)})
